@@ -102,7 +102,11 @@ class iterable_loader(DataStreamProcessor):
     def process_datapackage(self, dp: Package):
         name = self.name
         if name is None:
-            name = 'res_{}'.format(len(dp.resources) + 1)
+            existing = set(r.get('name') for r in dp.descriptor.get('resources', []))
+            index = len(dp.resources) + 1
+            while 'res_{}'.format(index) in existing:
+                index += 1
+            name = 'res_{}'.format(index)
         self.res = Resource(dict(
             name=name,
             path='{}.csv'.format(name)
